@@ -271,6 +271,14 @@ def c11(ck):
             nd += 1
             if nd <= 5:
                 ck.tie_broken.append("model/implementation disagree on %s text %r: impl=%s model=%s" % (kind, text[:200], a[:200], model[cid][:200]))
+            if a.startswith("ok") and model[cid].startswith("ok"):
+                # same reasoning for the structure: the model parser returns exactly the tree the grammar's rendering
+                # relation assigns to the text (names, member order, types, docs trimmed of the grammar's blanks)
+                ia, ma = ast_of(a), ast_of(model[cid])
+                diff_keys = [k for k in (ia or {}) if (ma or {}).get(k) != ia.get(k)]
+                ck.failures.append({"what": "the parsed structure does not mirror the source (it differs from the tree the grammar assigns to the text)",
+                                    "text": text[:600], "differs_in": diff_keys[:4],
+                                    "parser": json.dumps(ia, ensure_ascii=True)[:400], "grammar": json.dumps(ma, ensure_ascii=True)[:400]})
             if a.startswith("ok") != model[cid].startswith("ok") and kind != "dup":
                 # the model parser is proved to accept exactly the renderings of the grammar (C11_accepted_iff_rendered):
                 # a text on which the verdicts differ is accepted without following the grammar, or rejected although it does
